@@ -381,6 +381,54 @@ def operations_shared_between_tables():
                 [("o1", "P0", "m"), ("o2", "P0", "total"), ("o3", "P0", "tw"), ("o4", "P0", "arr")], ["operations-shared-between-tables"])
 
 
+def same_output_name_to_several_parties():
+    """one output name used for outputs to different parties (and once more for another value): every returned Output
+    is an output of the MIR, in the returned order"""
+    return prog([inp("a", "a", SI), inp("b", "b", SI, "P1"), {"k": "bin", "x": "s", "op": "OAdd", "a": "a", "b": "b"},
+                 {"k": "bin", "x": "m", "op": "OMul", "a": "a", "b": "b"}],
+                [("total", "P0", "s"), ("product", "P2", "m"), ("total", "P1", "s"), ("product", "P0", "m"), ("total", "P2", "m")],
+                ["same-output-name-to-several-parties"])
+
+
+def attribute_like_field_names():
+    """object fields whose names read like attributes of the collection classes, used in arithmetic: each read is an
+    accessor of the declared field (a field read as a plain Python number would be folded in as a literal)"""
+    PI = S("Public", "Int")
+    names = ["size", "price", "id", "count", "name", "type", "length", "index", "mode", "key"]
+    st = [inp("v0", "size", SI), inp("v1", "price", SI), inp("v2", "id", PI), inp("v3", "count", PI, "P1"), inp("v4", "name", SI, "P1"),
+          inp("v5", "type", PI), inp("v6", "length", SI), inp("v7", "index", PI), inp("v8", "mode", SI), inp("v9", "key", PI)]
+    st.append({"k": "objnew", "x": "entry", "fs": [(n, f"v{i}") for i, n in enumerate(names)]})
+    st.append({"k": "ntnew", "x": "pair", "es": ["v0", "v3"]})
+    for i, n in enumerate(names):
+        st.append({"k": "fld", "x": f"f{i}", "a": "entry", "f": n})
+    st += [{"k": "bin", "x": "t0", "op": "OAdd", "a": "f0", "b": "f1"}, {"k": "bin", "x": "t1", "op": "OMul", "a": "f2", "b": "f3"},
+           {"k": "bin", "x": "t2", "op": "OSub", "a": "f4", "b": "f5"}, {"k": "bin", "x": "t3", "op": "OAdd", "a": "f6", "b": "f7"},
+           {"k": "bin", "x": "t4", "op": "OMul", "a": "f8", "b": "f9"}]
+    return prog(st, [(f"o{i}", "P0", f"t{i}") for i in range(5)] + [("whole", "P1", "entry"), ("pair", "P1", "pair")], ["attribute-like-field-names"])
+
+
+def random_draws_made_by_one_line():
+    """several random draws made by ONE source line (a comprehension, a helper called twice) are several draws:
+    the texts below mean the plain program with one statement per draw"""
+    out = []
+    base = [inp("st", "stake", SI), {"k": "random", "x": "r0", "b": "Int"}, {"k": "random", "x": "r1", "b": "Int"}, {"k": "random", "x": "r2", "b": "Int"},
+            {"k": "bin", "x": "s0", "op": "OAdd", "a": "st", "b": "r0"}, {"k": "bin", "x": "s1", "op": "OAdd", "a": "st", "b": "r1"},
+            {"k": "bin", "x": "s2", "op": "OAdd", "a": "st", "b": "r2"}, {"k": "bin", "x": "d", "op": "OSub", "a": "r0", "b": "r1"}]
+    outs = [("o0", "P0", "s0"), ("o1", "P1", "s1"), ("o2", "P2", "s2"), ("o3", "P0", "d")]
+    three = "    r0 = SecretInteger.random()\n    r1 = SecretInteger.random()\n    r2 = SecretInteger.random()\n"
+    for tag, repl in (("comprehension", "    masks = [SecretInteger.random() for _ in range(3)]\n    r0, r1, r2 = masks\n"),
+                      ("loop", "    masks = []\n    for _ in range(3):\n        masks.append(SecretInteger.random())\n    r0 = masks[0]\n    r1 = masks[1]\n    r2 = masks[2]\n"),
+                      ("helper-called-three-times", "    def draw():\n        return SecretInteger.random()\n    r0, r1, r2 = draw(), draw(), draw()\n"),
+                      ("one-expression", "    r0, r1, r2 = SecretInteger.random(), SecretInteger.random(), SecretInteger.random()\n")):
+        pr = prog(list(base), list(outs), ["random-draws-made-by-one-line", tag])
+        import surface as _surface
+        text = _surface.to_python(pr)
+        assert three in text, text
+        pr["text"] = text.replace(three, repl)
+        out.append(pr)
+    return out
+
+
 def objects_same_fields_other_order():
     """two objects (and two n-tuples) with the same field names and types written in different orders, mixed secrecy"""
     PI = S("Public", "Int")
@@ -505,4 +553,4 @@ def all_families():
             dup_inputs("same-party-one-dead"), literal_array_inner(), object_key_order(), literal_divisions(),
             closure_factory(), kwargs_reordered(), unzip_compound(), reduce_public_seed(), rebound_closure_variable(), explicit_types_reordered(), objects_same_fields_other_order(), dup_inputs_one_line('comprehension'), dup_inputs_one_line('helper'), matrix_params_two_element_types(),
             declassifying_function_mapped(), row_function_over_two_matrices(), array_returning_function(), call_chain_depth_four(),
-            operations_shared_between_tables()] + rejected_functions() + wrong_arity_calls()
+            operations_shared_between_tables(), same_output_name_to_several_parties(), attribute_like_field_names()] + random_draws_made_by_one_line() + rejected_functions() + wrong_arity_calls()
